@@ -2,6 +2,7 @@
 Lemmas for C11 (model: Martian/ForkName.lean).  Core Lean only.
 -/
 import Martian.ForkName
+import Martian.ForkNameSpec
 
 namespace Martian.ForkName
 
@@ -81,14 +82,7 @@ theorem pathEscape_inj {a b : Bytes} (h : pathEscape a = pathEscape b) : a = b :
 
 /-! ## encodeJournalName -/
 
-/-- the replacer covers `.` and `/` and no replacement contains either -/
-def TableOK (pairs : Pairs) : Bool :=
-  (lookup pairs cDot).isSome && (lookup pairs cSlash).isSome &&
-  pairs.all (fun p => !p.2.contains cDot && !p.2.contains cSlash)
 
-/-- the replacer is a percent-encoding that also encodes `%` itself -/
-def TablePct (pairs : Pairs) : Bool :=
-  pairs.all (fun p => p.2 == pctEncode p.1) && (lookup pairs cPct).isSome
 
 theorem lookup_mem {pairs : Pairs} {c : UInt8} {r : Bytes} (h : lookup pairs c = some r) :
     (c, r) ∈ pairs := by
@@ -223,7 +217,6 @@ theorem singleId_arr (i len : Nat) (st : Bool) (x : Bytes)
       subst this; decide
     · simpa using h.symm
 
-def seg (k : Bytes) : Bytes := sForkU ++ pathEscape k
 
 theorem singleId_key (k : Bytes) (keys : List Bytes) (st : Bool) (x : Bytes)
     (h : singleId (.key k keys st) = some x) : x = seg k := by
@@ -277,11 +270,6 @@ theorem append_sep_inj {sep : UInt8} : ∀ (a b x y : Bytes), sep ∉ a → sep 
       obtain ⟨e1, e2⟩ := ih t' x y ha' hb' heq.2
       exact ⟨by rw [heq.1, e1], e2⟩
 
-/-- the id string of a nest of map parts: `fork_<k1>/fork_<k2>/…` -/
-def mapsId : List Bytes → Bytes
-  | [] => []
-  | [k] => seg k
-  | k :: k2 :: rest => seg k ++ cSlash :: mapsId (k2 :: rest)
 
 theorem seg_ne_nil (k : Bytes) : seg k ≠ [] := by simp [seg, sForkU]
 
@@ -394,10 +382,6 @@ theorem forkIdString_maps (re se : Bool) (parts : List Part) (ks : List Bytes)
 
 /-! ## The journal regex as a parser: `parseRun (render x) = some x` -/
 
-/-- no suffix starts with `.fork` -/
-def noDotFork : Bytes → Bool
-  | [] => true
-  | c :: r => !startsWith sDotFork (c :: r) && noDotFork r
 
 theorem findLast_none_of_noDotFork (s : Bytes) (h : noDotFork s = true) : findLast s = none := by
   induction s with
@@ -489,18 +473,7 @@ theorem takeUniq_some (u R : Bytes) (hlen : u.length = 10) (hhex : u.all isLower
     rw [← hlen]; exact List.drop_left' rfl
   simp only [h1, if_true, h2, h3, hlen, hhex, hR, beq_self_eq_true, Bool.and_self]
 
-/-- what `fileOK` demands of the metadata file name (with its prefix): reading
-on from the dot in front of it, no `.fork` follows and it can be taken neither
-for a chunk suffix nor for a uniquifier -/
-def fileOK (file : Bytes) : Bool :=
-  noDotFork (cDot :: file) && (takeChunk (cDot :: file)).1.isNone && (takeUniq (cDot :: file)).1.isNone
 
-structure WellFormed (x : JName) : Prop where
-  fork_ne : x.forkPart ≠ []
-  fork_dotfree : ∀ c ∈ x.forkPart, c ≠ cDot
-  chunk_ok : ∀ d, x.chunk = some d → d ≠ [] ∧ ∀ c ∈ d, isDigit c = true
-  uniq_ok : ∀ u, x.uniq = some u → u.length = 10 ∧ u.all isLowerHex = true
-  file_ok : fileOK x.file = true
 
 theorem digit_ne_dot (c : UInt8) (h : isDigit c = true) : c ≠ cDot := by
   intro hc; subst hc; exact absurd h (by decide)
